@@ -162,9 +162,12 @@ func (fx *FuncVC) appendMany(s, t SliceV, elem types.Type, pos token.Pos) SliceV
 		// appended part
 		fx.assume(T{fmt.Sprintf("(forall ((aj? Int)) (! (=> (and (<= %s aj?) (< aj? %s)) (= (select %s aj?) (select %s (+ aj? %s)))) :pattern ((select %s aj?))))",
 			at.S, Add(at, t.Len).S, row.S, trow.S, Sub(t.Off, at).S, row.S), SBool})
+		// the same fact indexed by the source position, so that a known element of t leads to its copy
+		fx.assume(T{fmt.Sprintf("(forall ((tj? Int)) (! (=> (and (<= %s tj?) (< tj? %s)) (= (select %s (+ tj? %s)) (select %s tj?))) :pattern ((select %s tj?))))",
+			t.Off.S, Add(t.Off, t.Len).S, row.S, Sub(at, t.Off).S, trow.S, trow.S), SBool})
 		// everything else in the row is as in the old row of s
-		fx.assume(T{fmt.Sprintf("(forall ((aj? Int)) (! (=> (not (and (<= %s aj?) (< aj? %s))) (= (select %s aj?) (select %s aj?))) :pattern ((select %s aj?))))",
-			at.S, Add(at, t.Len).S, row.S, orow.S, row.S), SBool})
+		fx.assume(T{fmt.Sprintf("(forall ((aj? Int)) (! (=> (not (and (<= %s aj?) (< aj? %s))) (= (select %s aj?) (select %s aj?))) :pattern ((select %s aj?)) :pattern ((select %s aj?))))",
+			at.S, Add(at, t.Len).S, row.S, orow.S, row.S, orow.S), SBool})
 		fx.setHeap(name, nh)
 	}
 	return SliceV{rbase, s.Off, nlen, Ite(fits, s.Cap, ncap), s.Typ}
